@@ -235,8 +235,9 @@ type finding struct {
 type evalResult struct {
 	Bad      string
 	Site     string
-	Rejected bool
+	Rejected bool // the case counts as non-trivial (esbuild rejected the input; "cfgpat": the key has matching / overlapping requests; "opts": the success path ran)
 	Returned bool
+	Note     string // "opts": the model calls the row valid but esbuild rejects it (spec drift, not a verdict)
 }
 
 func smapInput(payload, loader string, salt int) string {
@@ -298,6 +299,10 @@ func bundleTree(dir string, input string, k evalKey) api.BuildResult {
 func evalOne(input string, k evalKey, dir string) evalResult {
 	var errs, warns []api.Message
 	switch k.Mode {
+	case "cfgpat":
+		return evalCfg(input, dir)
+	case "opts":
+		return evalOpts(input, dir)
 	case "bundle":
 		res := bundleTree(dir, input, k)
 		errs, warns = res.Errors, res.Warnings
@@ -334,6 +339,8 @@ func keysFor(lang string, idx int, thorough bool, bundleEvery int) []evalKey {
 		h = -h
 	}
 	switch lang {
+	case "cfgpat", "opts":
+		return []evalKey{{Loader: "js", FS: fsPlain, Salt: 0, Mode: lang}}
 	case "cfg":
 		keys = append(keys, evalKey{Loader: "ts", FS: fsPlain, Salt: idx, Mode: "tsconfig"},
 			evalKey{Loader: "tsx", FS: fsDialect, Salt: idx, Mode: "tsconfig"},
@@ -504,6 +511,8 @@ type batchIn struct {
 	MaxBytes  int                 `json:"max_bytes,omitempty"`
 	// nest
 	NestCases []nestCase `json:"nest_cases,omitempty"`
+	// cfgpat, opts: self-contained cases (JSON documents)
+	Items []rawItem `json:"items,omitempty"`
 
 	wg *sync.WaitGroup
 }
@@ -618,6 +627,13 @@ func runBatch(r *core.Run, in batchIn) (*batchOut, error) {
 					local.ByLoaderFS[k.Loader+"/"+flagSetNames[k.FS]+"/"+k.Mode]++
 					if res.Rejected && (k.FS == fsPlain || k.FS == fsMapCJS) {
 						rejected = true
+					}
+					if res.Note != "" {
+						mu.Lock()
+						if len(out.Drift) < 5 {
+							out.Drift = append(out.Drift, res.Note)
+						}
+						mu.Unlock()
 					}
 					if res.Bad != "" {
 						f := finding{Type: "panic-message", Text: res.Bad, Site: res.Site, Input: []byte(it.input), Key: k, CaseID: it.caseID, Family: it.family, Lang: it.lang, Extra: it.extra}
@@ -823,6 +839,17 @@ func produce(r *core.Run, in batchIn, out *batchOut, mu *sync.Mutex, emit func(w
 					extra: map[string]interface{}{"seed_from": sd.From, "seed": sd.Text, "script": sc.Script}}) {
 					return
 				}
+			}
+		}
+	case "cfgpat", "opts":
+		for i, it := range in.Items {
+			if i%97 == 0 {
+				var doc map[string]interface{}
+				json.Unmarshal([]byte(it.Input), &doc)
+				sample(map[string]interface{}{"family": in.Family, "case": it.ID, "input": doc})
+			}
+			if !emit(workItem{caseID: it.ID, family: in.Family, lang: it.Lang, input: it.Input, idx: i}) {
+				return
 			}
 		}
 	case "nest":
